@@ -95,7 +95,8 @@ class Contract:
                  mode='full', tracked=(), properties=(), self_type=None, lemmas=(),
                  min_obligations=1, trusted=False, note='', unexpected_exceptions='obligation',
                  decreases=None, ghost=None, inline_asserts=None, skip=False,
-                 native=None, assumptions=(), volatile=None, env_assumes=()):
+                 native=None, assumptions=(), volatile=None, env_assumes=(), ensures_exc=(),
+                 ensures_all=()):
         self.qualname = qualname
         self.params = dict(params or {})
         self.returns = returns
@@ -121,6 +122,8 @@ class Contract:
         self.native = native
         self.volatile = dict(volatile or {})      # param -> [record fields whose value is volatile]
         self.env_assumes = list(env_assumes)      # assumptions about the environment (never asserted)
+        self.ensures_exc = list(ensures_exc)      # post-conditions of every exceptional exit
+        self.ensures_all = list(ensures_all)      # post-conditions of every exit, normal or exceptional
         self.assumptions = list(assumptions)
         self._parsed = {}
 
